@@ -734,6 +734,12 @@ def gen_c17(seed, params):
         "callee": callee,
         "signals": gen_signals(streams.get("faults"), params),
     }
+    rp = streams.get("gen.prior")
+    if rp.random() < 0.15 and info["conv"] is not None:
+        # history: earlier in the same process a user derived a convention of
+        # their own from ABI.calling_convention() by editing the description
+        # it returned; the patch under test is built afterwards
+        sc["prior_conv_edit"] = {"drop_registers": rp.randint(1, 3), "shadow_space": rp.choice([0, 8, 64]), "flip_cleanup": rp.random() < 0.5}
     return sc
 
 
@@ -1157,6 +1163,15 @@ def _bucket(delta, mask):
 
 
 def execute_c17(sc, params, stats):
+    cleanups = []
+    try:
+        return _execute_c17(sc, params, stats, cleanups)
+    finally:
+        for c in cleanups:
+            c()
+
+
+def _execute_c17(sc, params, stats, cleanups):
     import gtirb_rewriting
     from gtirb_rewriting.abi import CallingConventionDesc
     from gtirb_rewriting.assembler import AsmSyntaxError
@@ -1220,6 +1235,21 @@ def execute_c17(sc, params, stats):
             texts.append(t)
             return "nop\n" + t + "\nnop"
 
+    prior = sc.get("prior_conv_edit")
+    if prior:
+        from gtirb_rewriting.abi import ABI
+
+        edited = ABI.get(w.m).calling_convention()
+        saved_fields = (edited.registers, edited.shadow_space, edited.caller_cleanup)
+        # undone when the scenario is over (keeps the worker process
+        # hermetic should the library hand out a shared object: the edit is
+        # part of THIS scenario only)
+        cleanups.append(lambda: (setattr(edited, "registers", saved_fields[0]), setattr(edited, "shadow_space", saved_fields[1]), setattr(edited, "caller_cleanup", saved_fields[2])))
+        edited.registers = tuple(edited.registers[prior["drop_registers"] :])
+        edited.shadow_space = prior["shadow_space"]
+        if prior["flip_cleanup"]:
+            edited.caller_cleanup = not edited.caller_cleanup
+        stats["probe.prior_conv_edit"] += 1
     try:
         patch = RecordingCallPatch(w.syms["callee"], args, conv_obj, **kwargs)
     except ValueError as e:
@@ -1554,6 +1584,8 @@ def shrink_candidates(prop, sc):
             yield mod(lambda c, i=i: c["signals"].pop(i))
     if sc["func"].get("history"):
         yield mod(lambda c: c["func"].__setitem__("history", False))
+    if sc.get("prior_conv_edit"):
+        yield mod(lambda c: c.pop("prior_conv_edit"))
     if sc["func"].get("site"):
         yield mod(lambda c: c["func"].__setitem__("site", 0))
     if prop == "C16":
